@@ -125,6 +125,16 @@ class NumpyOracle:
         self.orc.draws.append([self.orc.cur, "c", n, i])
         return arr[i]
 
+    def randint(self, low, high=None, *args, **kw):
+        if high is None:
+            low, high = 0, low
+        n = int(high) - int(low)
+        if n <= 0:
+            raise ValueError("low >= high")
+        i = self.orc.rng.randrange(n)
+        self.orc.draws.append([self.orc.cur, "c", n, i])
+        return int(low) + i
+
     def __getattr__(self, name):
         import numpy
         return getattr(numpy.random, name)
@@ -158,6 +168,13 @@ def dom_index(dom, v):
     return -1
 
 
+def _eq(a, b):
+    try:
+        return bool(a == b)
+    except Exception:
+        return False
+
+
 def canon(v):
     """JSON-able rendering of a selected value with its type, for the evidence"""
     if v is None:
@@ -187,6 +204,7 @@ def run_case(case):
     if algo == "amaxsum":
         patch(import_module("pydcop.algorithms.maxsum"), "random", orc)
 
+    mevents = []     # model-level events: ["sel", node, idx] / ["fin", node] / ["err", node, kind]
     calls = []       # [node, val_idx, canon(val), fired(bool), cur_before_idx, cur_after_idx, ndraws_before]
     events = []      # [node, val_idx]  from _on_value_selection
     raises = []
@@ -200,6 +218,7 @@ def run_case(case):
 
         def on_sel(val, cost, cycle):
             events.append([name, dom_index(dom, val), canon(val)])
+            mevents.append(["sel", name, dom_index(dom, val)])
             return orig_on(val, cost, cycle)
 
         def value_selection(val, cost=0):
@@ -242,6 +261,88 @@ def run_case(case):
     for n, c in comps.items():
         mk_periodic(n, c)
 
+    # model-level events of dsatuto / adsa / gdba: ["sel", node, idx] / ["fin", node]
+    evs = {n: [] for n in comps}      # per node evaluation stream (see M_Select.v)
+    mask_bad = []
+
+    def mask_of(name, vals):
+        dom = doms[name]
+        m = [any(_eq(d, v) for v in vals) for d in dom]
+        rebuilt = [d for d, b in zip(dom, m) if b]
+        if len(rebuilt) != len(vals) or not all(_eq(a, b) for a, b in zip(rebuilt, vals)):
+            mask_bad.append([name, [canon(v) for v in vals]])
+        return m
+
+    if algo in ("dsatuto", "adsa", "gdba"):
+        for n, c in varcomps.items():
+            def mk_fin(name, comp):
+                orig = comp.finished
+
+                def finished():
+                    mevents.append(["fin", name])
+                    return orig()
+                comp.finished = finished
+            mk_fin(n, c)
+    if algo == "dsatuto":
+        last_cost = {}
+        orig_ac, orig_fo = mod.assignment_cost, mod.find_optimal
+
+        def assignment_cost(assignment, constraints, *a, **kw):
+            r = orig_ac(assignment, constraints, *a, **kw)
+            last_cost[orc.cur] = r
+            return r
+
+        def find_optimal(variable, assignment, constraints, mode):
+            arg_min, min_cost = orig_fo(variable, assignment, constraints, mode)
+            evs[variable.name].append([bool(last_cost[variable.name] - min_cost > 0), mask_of(variable.name, arg_min)])
+            return arg_min, min_cost
+        patch(mod, "assignment_cost", assignment_cost)
+        patch(mod, "find_optimal", find_optimal)
+    if algo == "adsa":
+        for n, c in varcomps.items():
+            def mk_adsa(name, comp):
+                st = {}
+                o_fbv, o_evc = comp.find_best_values, comp.exists_violated_constraint
+
+                def find_best_values(assignment):
+                    r = o_fbv(assignment)
+                    st["mask"] = mask_of(name, list(r[0]))
+                    st["viol"] = False
+                    return r
+
+                def exists_violated_constraint():
+                    r = o_evc()
+                    st["viol"] = bool(r)
+                    return r
+                comp.find_best_values = find_best_values
+                comp.exists_violated_constraint = exists_violated_constraint
+                for vn in ("variant_a", "variant_b", "variant_c"):
+                    def mk_var(orig):
+                        def variant(delta, best_cost, best_values):
+                            rec = [bool(delta > 0), False, st["mask"]]
+                            evs[name].append(rec)
+                            try:
+                                return orig(delta, best_cost, best_values)
+                            finally:
+                                rec[1] = st["viol"]
+                        return variant
+                    setattr(comp, vn, mk_var(getattr(comp, vn)))
+            mk_adsa(n, c)
+    if algo == "gdba":
+        for n, c in varcomps.items():
+            def mk_gdba(name, comp):
+                orig = comp._compute_best_improvement
+
+                def _compute_best_improvement():
+                    bests, best_eval = orig()
+                    imp = comp.current_cost - best_eval
+                    if int(imp) != imp:
+                        raise ValueError("non-integer improvement %r" % (imp,))
+                    evs[name].append([int(imp), mask_of(name, list(bests))])
+                    return bests, best_eval
+                comp._compute_best_improvement = _compute_best_improvement
+            mk_gdba(n, c)
+
     real_do = drv.do
 
     def do(act):
@@ -260,13 +361,16 @@ def run_case(case):
                         h.cb()
                     except Exception as e:
                         drv.events.append(("raise", node, type(e).__name__, str(e)[:200]))
-                if periodic[node] and comps[node].is_running:
+                if periodic[node] and comps[node].is_running and not q:
                     q.append(_Tick())
         else:
             real_do(act)
         for e in drv.events[ne:]:
             if e[0] == "raise":
                 raises.append([e[1], e[2], e[3]])
+                kind = (1 if (e[2] == "IndexError" or "cannot be empty" in e[3] or "low >= high" in e[3])
+                        else 3 if e[2] == "TypeError" else 0)
+                mevents.append(["err", e[1], kind, e[2]])
     drv.do = do
     try:
         from harness.pydrv.netdriver import pick_policy
@@ -275,7 +379,22 @@ def run_case(case):
     finally:
         for m, attr, old in patched:
             setattr(m, attr, old)
+    model = None
+    if algo in ("dsatuto", "adsa", "gdba"):
+        from pydcop.dcop.relations import optimal_cost_value
+        nbrs, iso, init = {}, {}, {}
+        for n, c in varcomps.items():
+            nb = c.neighbors
+            nbrs[n] = sorted(getattr(x, "name", x) for x in nb)
+            init[n] = dom_index(doms[n], c.variable.initial_value)
+            if not nbrs[n]:
+                try:
+                    iso[n] = dom_index(doms[n], optimal_cost_value(c.variable, case["mode"])[0])
+                except Exception:
+                    iso[n] = None
+        per_node = {n: [d[-1] for d in orc.draws if d[0] == n] for n in varcomps}
+        model = dict(nbrs=nbrs, iso=iso, init=init, orc=per_node, evs=evs, mevents=mevents, mask_bad=mask_bad)
     final = {n: [dom_index(doms[n], c.current_value), canon(c.current_value)] for n, c in sorted(varcomps.items())}
-    return dict(calls=calls, events=events, raises=raises, final=final, draws=orc.draws,
+    return dict(calls=calls, events=events, raises=raises, final=final, draws=orc.draws, model=model,
                 nsched=len(drv.schedule), sched=drv.schedule, varcomps=sorted(varcomps),
                 comps=sorted(comps))
